@@ -157,6 +157,9 @@ def _run_inner(job):
 
 def replay(entry, repo_root):
     r = entry.get('replay') or {}
+    if r.get('kind') == 'keyed':
+        f = _keyed_job(tuple(r['job']))
+        return f[0]['what'] if f else None
     if r.get('kind') == 'ops':
         f = _run((r['heap'], [tuple(o) for o in r['ops']]))
         return f[0]['what'] if f else None
@@ -212,6 +215,55 @@ def _helpers_job(job):
     return fails
 
 
+KEYFUNCS = {
+    'second': lambda it: it[1],                       # items are (label, number): keys 0, 0.0, False occur
+    'text': lambda it: it[0],                         # keys "", "a", ...
+    'tuple': lambda it: tuple(range(it[1])),          # keys (), (0,), (0, 1) ...
+    'neg': lambda it: -it[1],
+    'const0': lambda it: 0,
+}
+
+
+def _keyed_job(job):
+    """Heaps, smallest() and largest() with a key function, including keys that are falsy (0, 0.0, "", (), False): items
+    come out in the order of their keys; the key stored in a node is the key function's value."""
+    from graphtage.fibonacci import FibonacciHeap, MaxFibonacciHeap
+    from graphtage.utils import smallest, largest
+    kname, items, n = job
+    items = [tuple(i) for i in items]
+    key = KEYFUNCS[kname]
+    fails = []
+
+    def fail(kind, what):
+        fails.append({'what': f"{what} [key function {kname!r}, items={items!r}, n={n}]", 'class': f'c16-{kind}',
+                      'input': {'key': kname, 'items': items, 'n': n}, 'replay': {'kind': 'keyed', 'job': [kname, [list(i) for i in items], n]}})
+    try:
+        for cls, rev, nm in ((FibonacciHeap, False, 'min'), (MaxFibonacciHeap, True, 'max')):
+            h = cls(key=key)
+            nodes = [h.push(it) for it in items]
+            if not rev:
+                for nd, it in zip(nodes, items):
+                    if nd.key != key(it) or type(nd.key) is not type(key(it)):
+                        fail('node-key-wrong', f"push({it!r}) on a heap with a key function stored key {nd.key!r}, the key function gives {key(it)!r}")
+                        return fails
+            out = []
+            while h and len(out) <= len(items):
+                out.append(h.pop())
+            keys = [key(o) for o in out]
+            if sorted(map(repr, out)) != sorted(map(repr, items)) or keys != sorted(keys, reverse=rev):
+                fail(f'keyed-pop-order', f"popping a {nm}-heap yields keys {keys!r} (items {out!r}), expected keys {sorted(map(key, items), reverse=rev)!r}")
+                return fails
+        if len(items) > n:
+            for nm, fn, rev in (('smallest', smallest, False), ('largest', largest, True)):
+                got = list(fn(list(items), n=n, key=key))
+                exp = sorted(map(key, items), reverse=rev)[:n]
+                if sorted(map(key, got), reverse=rev) != exp or any(g not in items for g in got):
+                    fail(f'{nm}-wrong', f"{nm}(items, n={n}, key=...) yielded {got!r} (keys {[key(g) for g in got]!r}), the {n} {nm} keys are {exp!r}")
+    except Exception as ex:
+        fail('keyed-exception:' + type(ex).__name__, f"{type(ex).__name__}: {ex}")
+    return fails
+
+
 def bounded(tier, seed, repo_root):
     L = 5 if tier == 'quick' else 6
     alpha = _alphabet([0, 1, 2])
@@ -244,11 +296,21 @@ def bounded(tier, seed, repo_root):
         n_items = rnd.randint(0, 12)
         hj.append(([rnd.choice([0, 1, 2, 3, 5, 5, 7, -1]) for _ in range(n_items)], rnd.randint(1, 6)))
     fails += [f for fs in pmap(_helpers_job, hj, repo_root, chunksize=100, job_timeout=20, on_timeout=_helpers_timeout) for f in fs]
+    kj = []
+    labels = ['', 'a', 'b', 'ab']
+    for _ in range(800 if tier == 'quick' else 8000):
+        its = [(rnd.choice(labels), rnd.choice([0, 0, 1, 2, 3, 0.0, False, True, 2.5])) for _ in range(rnd.randint(1, 9))]
+        kn = rnd.choice(sorted(KEYFUNCS))
+        if kn == 'tuple':
+            its = [(a, int(b)) for a, b in its]
+        kj.append((kn, its, rnd.randint(1, 4)))
+    fails += [f for fs in pmap(_keyed_job, kj, repo_root, chunksize=100, job_timeout=20, on_timeout=_helpers_timeout) for f in fs]
     return [{
         'name': 'C16.lock-step', 'bound': f"all operation sequences over push(0|1|2)/pop/peek/decrease_key/remove up to length {L} "
         f"for the min-heap and (without decrease_key) the max-heap ({exhaustive_n} sequences, exhaustive) + "
-        f"{len(jobs) - exhaustive_n} seeded sequences of length 20..200 with duplicate keys; {OPS_TIMEOUT}s per sequence",
-        'evaluations': len(jobs), 'distinct_nontrivial': len(jobs), 'exhaustive': True,
+        f"{len(jobs) - exhaustive_n} seeded sequences of length 20..200 with duplicate keys; {OPS_TIMEOUT}s per sequence; "
+        f"{len(hj)} smallest/largest/merge jobs; {len(kj)} heaps / smallest / largest with key functions whose keys include 0, 0.0, False, '' and ()",
+        'evaluations': len(jobs) + len(hj) + len(kj), 'distinct_nontrivial': len(jobs), 'exhaustive': True,
         'rule': 'operation sequence -> after every operation: reported size == live items, peek/pop return a smallest live '
                 'key (model keyed by node identity), rings closed, parent/child/degree consistent, heap order',
         'failures': fails, 'samples': [{'heap': j[0], 'ops': j[1]} for j in jobs[5000:5003]],
